@@ -224,7 +224,10 @@ class Parser:
                         t.type = "UNQUOTED_STRING_VALUE"
                 elif t.type == "GRID":
                     # Unquoted 'GRID' coming after NAME is always a value, not a composite type
-                    if ip.parser_state.value_stack[-1] == "NAME":
+                    if (
+                        ip.parser_state.value_stack
+                        and ip.parser_state.value_stack[-1] == "NAME"
+                    ):
                         t.type = "UNQUOTED_STRING_VALUE"
 
             tree = ip.resume_parse()
